@@ -1036,7 +1036,8 @@ class OdeSystem(object):
             # that earlier calls made for the same event function
             for __ev_idx, __ev in enumerate(events):
                 for __rec_idx in range(len(self.__events) - 1, -1, -1):
-                    if self.__events[__rec_idx].event is __ev:
+                    # (a bound method is a new object every time it is looked up: `==` compares the function and its owner)
+                    if self.__events[__rec_idx].event is __ev or (inspect.ismethod(__ev) and self.__events[__rec_idx].event == __ev):
                         last_occurrence[__ev_idx] = __rec_idx
                         break
 
